@@ -379,6 +379,15 @@ func docWellFormed(doc *didtypes.DIDDocument) Verdict {
 	return r
 }
 
+// docAbout: a well-formed document about another identifier must never be stored under did (C11 decides
+// that at handler level); whether stateless validation already refuses it is left open by the documents.
+func docAbout(doc *didtypes.DIDDocument, did string) Verdict {
+	if doc != nil && doc.Id != "" && doc.Id != did {
+		return Unjudged
+	}
+	return Valid
+}
+
 func hasNUL(s string) bool { return strings.IndexByte(s, 0) >= 0 }
 
 // pnftID: required identifiers must be present; identifiers containing NUL are left open by the
@@ -425,9 +434,9 @@ func StatelessVerdict(msg sdk.Msg) Verdict {
 		return and(b2v(reTopic.MatchString(t.TopicName)), b2v(len(t.Key) <= 70), b2v(len(t.Value) <= 5000),
 			addrV(t.WriterAddress), addrV(t.OwnerAddress), fp)
 	case *didtypes.MsgCreateDIDRequest:
-		return and(b2v(reDID.MatchString(t.Did)), b2v(len(t.Signature) > 0), docWellFormed(t.Document), addrV(t.FromAddress))
+		return and(b2v(reDID.MatchString(t.Did)), b2v(len(t.Signature) > 0), docWellFormed(t.Document), addrV(t.FromAddress), docAbout(t.Document, t.Did))
 	case *didtypes.MsgUpdateDIDRequest:
-		return and(b2v(reDID.MatchString(t.Did)), b2v(len(t.Signature) > 0), docWellFormed(t.Document), addrV(t.FromAddress))
+		return and(b2v(reDID.MatchString(t.Did)), b2v(len(t.Signature) > 0), docWellFormed(t.Document), addrV(t.FromAddress), docAbout(t.Document, t.Did))
 	case *didtypes.MsgDeactivateDIDRequest:
 		return and(b2v(reDID.MatchString(t.Did)), b2v(len(t.Signature) > 0), addrV(t.FromAddress))
 	case *pnfttypes.MsgCreateDenomRequest:
